@@ -139,6 +139,11 @@ def run(ctx):
         "fields of f_arg_decl (both checked here as T1 items), metaattrs['intent'] set and buffer-name attributes "
         "strings or None (set by generate.py; not proved)",
     ]
+    # the helper tables carry the bind(C) interfaces of the helper functions: what a run emits must not depend on what an
+    # earlier run in the same process registered (a reused entry names the EARLIER library's C function)
+    from effects.history import history_items
+    history_items(ctx, "C04", "helper interfaces (bind(C) names) are built by the run that emits them",
+                  select=lambda root, v: root.startswith("whelpers."))
     lvl = "proof"
     return ctx.finish(level=lvl, explanation="closed invariants over the constant tables (paired declarations, kind table, "
                       "paired struct/derived type, type-code tables, helper interfaces) decided by exhaustive evaluation on "
